@@ -26,10 +26,18 @@ one() {
       fi
     done
     echo "SEED $s caught-by:${HIT:- NONE}"
+    if [ -n "$MERGE" ] && [ -f /verif/seeded/$s/caught_by.txt ]; then
+      # MERGE=1: keep the recorded results of the checks that were not run this time
+      KEEP=""
+      for w in $(cat /verif/seeded/$s/caught_by.txt); do
+        q=${w%%(*}; case " $CLAIMED " in *" $q "*) ;; *) [ "$w" != NONE ] && [[ $w == C* ]] && KEEP="$KEEP $w";; esac
+      done
+      HIT=$(printf '%s\n' $KEEP $HIT | sort | tr '\n' ' '); HIT=" ${HIT% }"; [ "$HIT" = " " ] && HIT=""
+    fi
     echo "${HIT:- NONE}" > /verif/seeded/$s/caught_by.txt
   fi
   git -C /repo worktree remove --force $WT 2>/dev/null; rm -rf $WT $OUT
   git -C /repo worktree prune
 }
-export -f one; export CLAIMED
+export -f one; export CLAIMED MERGE
 printf '%s\n' $SEEDS | xargs -P $PAR -I{} bash -c 'one {}'
